@@ -208,6 +208,27 @@ func shapeBody(cls int) ([]byte, error) {
 // make produces the signature bytes of element e over digest.
 func (s *signer) make(e *Elem, digest []byte) ([]byte, error) {
 	ht, cls := e.B[0], e.B[1]
+	if cls >= 30 && cls <= 33 {
+		// strict DER, every encoding rule satisfied, but R or S is 0 or the group order
+		fine := bytes.Repeat([]byte{0x11}, 32)
+		order := append([]byte{0x00}, btcec.S256().N.Bytes()...)
+		r, sv := fine, fine
+		switch cls {
+		case 30:
+			r = []byte{0x00}
+		case 31:
+			sv = []byte{0x00}
+		case 32:
+			r = order
+		case 33:
+			sv = order
+		}
+		body := append([]byte{0x02, byte(len(r))}, r...)
+		body = append(body, 0x02, byte(len(sv)))
+		body = append(body, sv...)
+		out := append([]byte{0x30, byte(len(body))}, body...)
+		return append(out, byte(ht)), nil
+	}
 	if cls >= 10 && cls < 64 {
 		b, err := shapeBody(cls)
 		if err != nil {
